@@ -290,6 +290,26 @@ def run(chk):
     from ..semantic import assignments as _assignments
 
     PP = Package(repo, overrides=overrides())
+    # ... and, where signal_probability talks to the counter in a way the reference counter does not know (an interface of the two
+    # functions that changed together), the repository's own model_count from source over the DPLL solver model
+    from ..satpipe import pipeline_package as _pp
+
+    class _Both:
+        def __init__(self):
+            self.ref, self.src = PP, None
+
+        def call(self, *a):
+            try:
+                return self.ref.call(*a)
+            except AnalysisError as e:
+                if "model of the callee does not take these arguments" not in str(e):
+                    raise
+                if self.src is None:
+                    self.src = _pp(repo, True)
+                return self.src.call(*a)
+
+    PP = _Both()
+    PPS = PP
     pmodels = {
         "ties": build({"a": ("input", []), "z": ("0", []), "w": ("1", []), "nz": ("not", ["z"]), "bw": ("buf", ["w"]), "g": ("and", ["a", "nz"]), "k": ("nor", ["z", "bw"]), "x2": ("xor", ["nz", "bw"])}, outputs=["g", "k"]),
         "plain": build({"a": ("input", []), "b": ("input", []), "c": ("input", []), "g": ("or", ["a", "b"]), "h": ("xnor", ["g", "c"]), "n": ("not", ["g"])}, outputs=["h", "n"]),
@@ -311,14 +331,25 @@ def run(chk):
 
     _bb = _RBB("bb", ["i"], ["o"])
     pmodels["blackbox-output-in-the-cone"] = build({"x": ("input", []), "u0.i": ("bb_input", ["x"]), "u0.o": ("bb_output", []), "y": ("buf", ["u0.o"]), "z": ("and", ["x", "y"])}, outputs=["z"], blackboxes={"u0": _bb})
+    # logic outside the cone that has no consistent valuation at all (a free-running inverter loop): the probability of a node is a
+    # matter of its own cone (the reference values come from the twin circuit without the loop)
+    twins = {}
+    _cone_only = {"a": ("input", []), "b": ("input", []), "n": ("and", ["a", "b"]), "m": ("xor", ["n", "a"])}
+    pmodels["oscillator-outside-the-cone"] = build({**_cone_only, "g": ("not", ["g"]), "h": ("buf", ["g"])}, outputs=["m", "h"])
+    twins["oscillator-outside-the-cone"] = build(_cone_only, outputs=["m"])
     for mname, cm in pmodels.items():
         for node in sorted(cm.nodes()):
             if cm.type(node) == "bb_input":
                 continue
+            if mname in twins and node not in twins[mname].nodes():
+                continue
             sp = sorted(cm.startpoints(node))
-            ones = sum(1 for a in _assignments(sp) if rsim(cm, {**{s: False for s in cm.startpoints()}, **a})[node])
+            rc_ = twins.get(mname, cm)
+            ones = sum(1 for a in _assignments(sp) if rsim(rc_, {**{s: False for s in rc_.startpoints()}, **a})[node])
             want = Fraction(ones, 2 ** len(sp))
             r = PP.call("props.py", "signal_probability", cm, node, False)
+            if r[0] == "unreadable-with-the-reference-counter":
+                r = PPS.call("props.py", "signal_probability", cm, node, False)
             ok = r[0] == "return" and isinstance(r[1], (int, float)) and Fraction(r[1]).limit_denominator(1 << 20) == want
             chk.ob("C08.P.value", f"signal_probability::{mname}::{node}", ok, file="props.py", func="signal_probability", fact={"result": str(r)[:80], "expected": str(want)}, expect=str(want))
     # ---- D: approx_model_count DIMACS ---------------------------------
